@@ -67,6 +67,13 @@ OPS = {
     "i32.add": 0x6A, "i32.sub": 0x6B, "i32.mul": 0x6C, "i32.and": 0x71, "i32.or": 0x72, "i32.xor": 0x73,
     "i32.shl": 0x74, "i32.shr_u": 0x76, "i32.rotl": 0x77,
     "i64.add": 0x7C, "i64.sub": 0x7D, "i64.mul": 0x7E, "i64.xor": 0x85,
+    "i32.gt_s": 0x4A, "i32.le_u": 0x4D, "i32.ge_s": 0x4E, "i64.eqz": 0x50, "i64.eq": 0x51, "i64.ne": 0x52, "i64.lt_s": 0x53,
+    "i32.clz": 0x67, "i32.ctz": 0x68, "i32.popcnt": 0x69, "i32.shr_s": 0x75, "i32.rotr": 0x78,
+    "i64.clz": 0x79, "i64.and": 0x83, "i64.or": 0x84, "i64.shl": 0x86, "i64.shr_u": 0x88, "i64.rotl": 0x89,
+    "f32.abs": 0x8B, "f32.neg": 0x8C, "f32.sub": 0x93, "f32.mul": 0x94, "f32.min": 0x96,
+    "f64.abs": 0x99, "f64.neg": 0x9A, "f64.sub": 0xA1, "f64.mul": 0xA2, "f64.max": 0xA5,
+    "f32.convert_i32_s": 0xB2, "f32.demote_f64": 0xB6, "f64.convert_i32_s": 0xB7, "f64.convert_i64_u": 0xBA, "f64.promote_f32": 0xBB,
+    "f32.eq": 0x5B, "f32.lt": 0x5D, "f64.eq": 0x61, "f64.gt": 0x64,
     "i32.wrap_i64": 0xA7, "i64.extend_i32_u": 0xAD, "i64.extend_i32_s": 0xAC,
     "f32.add": 0x92, "f64.add": 0xA0, "f32.reinterpret_i32": 0xBE, "f64.reinterpret_i64": 0xBF,
     "i32.reinterpret_f32": 0xBC, "i64.reinterpret_f64": 0xBD,
